@@ -164,7 +164,8 @@ pub fn run(action: &str, spec: &ChildSpec) -> anyhow::Result<Value> {
                 sub.action = loader.clone();
                 sub.args.insert("n".into(), st["n"].clone());
                 sub.args.insert("m".into(), st["m"].clone());
-                let r = std::panic::catch_unwind(std::panic::AssertUnwindSafe(|| run(&loader, &sub)));
+                // through the child's dispatcher, so that the build stages can be steps too
+                let r = std::panic::catch_unwind(std::panic::AssertUnwindSafe(|| crate::child::run_action(&sub)));
                 results.push(match r {
                     Ok(Ok(_)) => json!({"result": "ok"}),
                     Ok(Err(e)) => json!({"result": "err", "error": format!("{e:#}")}),
